@@ -49,7 +49,10 @@ Corpus ==
                 @@ ("t1" :> <<Sym(3), Block("bb", <<Sym(4)>>), Sym(5)>>),
     nestedif |-> ("main" :> <<Sym(1), For1("i", L12, <<Sym(2), If1(Var("x"), <<Sym(3)>>), Sym(4)>>), Sym(5)>>),
     tagtag  |-> ("main" :> <<Sym(1), If1(Var("x"), <<If1(Var("x"), <<Sym(2)>>)>>), Sym(3)>>),
-    edge    |-> ("main" :> <<PrintS(Var("x")), Sym(1), PrintS(Var("x"))>>)
+    edge    |-> ("main" :> <<PrintS(Var("x")), Sym(1), PrintS(Var("x"))>>),
+    \* a verbatim body that holds a comment and tag syntax: reproduced, at every template size
+    verbc   |-> ("main" :> <<Sym(1), Verbatim(<<97, 123, 35, 32, 99, 32, 35, 125, 98>>), Sym(2), PrintS(Var("x")), Sym(3)>>),
+    printnum |-> ("main" :> <<Sym(1), PrintS(LI(42)), Sym(2), PrintS(LI(7)), Sym(3), If1(LI(1), <<Sym(4)>>)>>)
   ]
 Ctx == ("x" :> VI(3)) @@ ("s" :> VS(<<97>>))
 
